@@ -511,9 +511,3 @@ Example C20_cleanup_nonvacuous :
   q = [[]; [CID1 ++ take 10 HB]; [CID1 ++ take 10 HA]] /\
   q' = [[]; []; [CID1 ++ take 10 HA]].
 Proof. vm_compute. split; reflexivity. Qed.
-
-(** Source constants.  The literals of the model behind this property are tied to the
-    constants of /repo's Go sources (Gen/Params.v, regenerated from the working tree on
-    every run) in Proofs/TiesStores.v; requiring that file here makes the obligations of this
-    property fail when a constant it depends on is edited in the source. *)
-Require Verif.Proofs.TiesStores.
